@@ -258,7 +258,10 @@ func checkC01(r *Run) {
 	nb := 0
 	for _, name := range []string{"p9p:DecodeDir", "p9p:EncodeDir"} {
 		if fn := r.P.Fn(name); fn != nil {
-			nb += dischargeBounds(r, fn, "dir-record-bounds", nil)
+			for _, f := range r.P.withHelpers(fn, 1) { // the record may be read by a helper (`readDirRecord(rd)`)
+				nb += dischargeBounds(r, f, "dir-record-bounds", nil)
+				nb += putPreconditions(r, f, "dir-record-bounds")
+			}
 		}
 	}
 	r.Floor("dir-record-bounds", nb, 2, "slice/make obligations in DecodeDir/EncodeDir")
@@ -299,31 +302,55 @@ func c01NewMessage(r *Run, codes map[string]int64) {
 		return
 	}
 	seen := map[string]bool{}
-	for _, ret := range returnsOf(nm) {
-		if len(ret.Results) != 2 || !isNilConst(ret.Results[1]) {
-			continue
-		}
-		// which code leads here: the dominating comparison typ == K
-		var code int64 = -1
-		for _, cd := range condsAtInstr(ret) {
-			nc := normCond(cd)
-			if b, ok := nc.V.(*ssa.BinOp); ok && b.Op == token.EQL && nc.Truth {
-				if v, ok := constInt(b.Y); ok && b.X == ssa.Value(nm.Params[0]) {
-					code = v
+	// the table type byte → message struct, read off the returns: a struct value returned under `typ == K`, directly
+	// or through a lookup helper handed typ whose non-nil result is returned (`if m := newRequestMessage(typ); m != nil`)
+	var table func(fn *ssa.Function, prm ssa.Value, errIdx int, depth int)
+	table = func(fn *ssa.Function, prm ssa.Value, errIdx int, depth int) {
+		for _, ret := range returnsOf(fn) {
+			if errIdx >= 0 && (len(ret.Results) <= errIdx || !isNilConst(ret.Results[errIdx])) {
+				continue
+			}
+			if len(ret.Results) == 0 || isNilConst(ret.Results[0]) {
+				continue // "not mine" result of a lookup helper
+			}
+			v := stripConv(ret.Results[0])
+			// a value obtained from a lookup helper and known non-nil here
+			if c, ok := v.(*ssa.Call); ok && depth < 2 {
+				if g := staticCallee(&c.Call); g != nil && g.Blocks != nil && g.Pkg == fn.Pkg && knownNonNilAt(c, ret) {
+					for i, a := range c.Call.Args {
+						if a == prm && i < len(g.Params) {
+							r.SawFn(fnName(g))
+							table(g, g.Params[i], -1, depth+1)
+						}
+					}
+					continue
 				}
 			}
+			var code int64 = -1
+			for _, cd := range condsAtInstr(ret) {
+				nc := normCond(cd)
+				if b, ok := nc.V.(*ssa.BinOp); ok && b.Op == token.EQL && nc.Truth {
+					if v, ok := constInt(b.Y); ok && b.X == prm {
+						code = v
+					}
+				}
+			}
+			t := v.Type()
+			if mi, ok := v.(*ssa.MakeInterface); ok {
+				t = mi.X.Type()
+			}
+			tn, _ := t.(*types.Named)
+			if tn == nil || code < 0 {
+				r.Undecided("newMessage", "newMessage: return of "+shortType(t), ret.Pos(), "cannot relate the returned struct to a type code")
+				continue
+			}
+			kind := strings.TrimPrefix(tn.Obj().Name(), "Message")
+			seen[kind] = true
+			r.Check(codes[kind] == code && spec9p[kind].code == code, "newMessage", fmt.Sprintf("newMessage(%d) → Message%s", code, kind), ret.Pos(),
+				fmt.Sprintf("type byte %d decodes into Message%s whose code is %d", code, kind, codes[kind]))
 		}
-		t := stripConv(ret.Results[0]).Type()
-		tn, _ := t.(*types.Named)
-		if tn == nil || code < 0 {
-			r.Undecided("newMessage", "newMessage: return of "+shortType(t), ret.Pos(), "cannot relate the returned struct to a type code")
-			continue
-		}
-		kind := strings.TrimPrefix(tn.Obj().Name(), "Message")
-		seen[kind] = true
-		r.Check(codes[kind] == code && spec9p[kind].code == code, "newMessage", fmt.Sprintf("newMessage(%d) → Message%s", code, kind), ret.Pos(),
-			fmt.Sprintf("type byte %d decodes into Message%s whose code is %d", code, kind, codes[kind]))
 	}
+	table(nm, nm.Params[0], 1, 0)
 	for k := range spec9p {
 		if !seen[k] {
 			r.Bad("newMessage", "newMessage handles "+k, nm.Pos(), "no case for "+k+": such messages cannot be decoded")
